@@ -51,6 +51,10 @@ fn main() {
             "C25" => vf_harness::pure::run_c25(&ctx),
             "C26" => vf_harness::pure::run_c26(&ctx),
             "C35" => vf_harness::pure::run_c35(&ctx),
+            "C05" => vf_harness::realleaf::run_c05(&ctx),
+            "C27" => vf_harness::realleaf::run_c27(&ctx),
+            "C32" => vf_harness::secrets::run_c32(&ctx),
+            "C33" => vf_harness::secrets::run_c33(&ctx),
             "C28" => vf_harness::policy::run_c28(&ctx),
             "C29" => vf_harness::policy::run_c29(&ctx),
             _ => {
